@@ -96,8 +96,8 @@ def OPTIONS():
         each_axis(lambda ax, f, h, i: None if [t.get_text() for t in ax.get_xticklabels()] == ["zero", "twelve"] else "xticklabels are %r" % [t.get_text() for t in ax.get_xticklabels()]))
     add("-yticklabels", ["-yticks", "0.5,1", "-yticklabels", "lo,hi"], ("standard",),
         each_axis(lambda ax, f, h, i: None if [t.get_text() for t in ax.get_yticklabels()] == ["lo", "hi"] else "yticklabels are %r" % [t.get_text() for t in ax.get_yticklabels()]))
-    add("-xrot", ["-xrot", "45"], ("standard", "multi"), each_axis(lambda ax, f, h, i: None if all(t.get_rotation() == 45 for t in ax.get_xticklabels()) else "x tick rotation %r" % [t.get_rotation() for t in ax.get_xticklabels()][:2]))
-    add("-yrot", ["-yrot", "30"], ("standard", "multi"), each_axis(lambda ax, f, h, i: None if all(t.get_rotation() == 30 for t in ax.get_yticklabels()) else "y tick rotation %r" % [t.get_rotation() for t in ax.get_yticklabels()][:2]))
+    add("-xrot", ["-xrot", "45"], ("standard", "multi", "map"), each_axis(lambda ax, f, h, i: None if all(t.get_rotation() == 45 for t in ax.get_xticklabels()) else "x tick rotation %r" % [t.get_rotation() for t in ax.get_xticklabels()][:2]))
+    add("-yrot", ["-yrot", "30"], ("standard", "multi", "map"), each_axis(lambda ax, f, h, i: None if all(t.get_rotation() == 30 for t in ax.get_yticklabels()) else "y tick rotation %r" % [t.get_rotation() for t in ax.get_yticklabels()][:2]))
     add("-ylog", ["-ylog"], ("standard",), each_axis(lambda ax, f, h, i: None if ax.get_yscale() == "log" else "yscale is %r" % ax.get_yscale()))
     add("-xlog", ["-xlog"], ("standard",), each_axis(lambda ax, f, h, i: None if ax.get_xscale() == "log" else "xscale is %r" % ax.get_xscale()))
 
@@ -141,9 +141,9 @@ def OPTIONS():
     add("-ms", ["-ms", "3,11"], ("standard",), per_line(lambda l: l.get_markersize(), [3.0, 11.0], "marker sizes"))
     add("-labfs", ["-labfs", "9"], ("standard", "multi"), each_axis(lambda ax, f, h, i: None if ax.xaxis.label.get_fontsize() == 9 and (ax.get_ylabel() == "" or ax.yaxis.label.get_fontsize() == 9) else
                                                                "label font sizes %r" % [ax.xaxis.label.get_fontsize(), ax.yaxis.label.get_fontsize()]))
-    add("-tickfs", ["-tickfs", "6"], ("standard", "multi"), each_axis(lambda ax, f, h, i: None if all(t.get_fontsize() == 6 for t in ax.get_xticklabels() + ax.get_yticklabels()) else
+    add("-tickfs", ["-tickfs", "6"], ("standard", "multi", "map"), each_axis(lambda ax, f, h, i: None if all(t.get_fontsize() == 6 for t in ax.get_xticklabels() + ax.get_yticklabels()) else
                                                                  "tick font sizes %r" % sorted(set(t.get_fontsize() for t in ax.get_xticklabels() + ax.get_yticklabels()))))
-    add("-titlefs", ["-title", "T", "-titlefs", "7"], ("standard", "multi"), each_axis(lambda ax, f, h, i: None if ax.title.get_fontsize() == 7 else "title font size %r" % ax.title.get_fontsize()))
+    add("-titlefs", ["-title", "T", "-titlefs", "7"], ("standard", "multi", "map"), each_axis(lambda ax, f, h, i: None if ax.title.get_fontsize() == 7 else "title font size %r" % ax.title.get_fontsize()))
 
     def grid_prop(getter, expected, what):
         def fn(ax, f, h, i):
@@ -155,14 +155,14 @@ def OPTIONS():
             got = sorted(set(getter(g) for g in gl), key=repr)
             return None if got == [expected] else "grid %s %r, expected %r" % (what, got, expected)
         return each_axis(fn)
-    add("-gc", ["-gc", "magenta"], ("standard", "multi"), grid_prop(lambda g: rgba(g.get_color()), rgba("magenta"), "colour"))
-    add("-gs", ["-gs", "--"], ("standard", "multi"), grid_prop(lambda g: g.get_linestyle(), "--", "style"))
-    add("-gw", ["-gw", "3"], ("standard", "multi"), grid_prop(lambda g: g.get_linewidth(), 3.0, "width"))
+    add("-gc", ["-gc", "magenta"], ("standard", "multi", "map"), grid_prop(lambda g: rgba(g.get_color()), rgba("magenta"), "colour"))
+    add("-gs", ["-gs", "--"], ("standard", "multi", "map"), grid_prop(lambda g: g.get_linestyle(), "--", "style"))
+    add("-gw", ["-gw", "3"], ("standard", "multi", "map"), grid_prop(lambda g: g.get_linewidth(), 3.0, "width"))
 
     def nogrid(ax, f, h, i):
         gl = ax.xaxis.get_gridlines() + ax.yaxis.get_gridlines()
         return None if not any(g.get_visible() for g in gl) else "grid visible with -nogrid"
-    add("-nogrid", ["-nogrid"], ("standard", "multi"), each_axis(nogrid))
+    add("-nogrid", ["-nogrid"], ("standard", "multi", "map"), each_axis(nogrid))
     add("-sp", ["-sp"], ("standard",), each_axis(lambda ax, f, h, i: None if any(str(l.get_label()) == "ideal" and all(float(y) == 0 for y in l.get_ydata()) for l in ax.get_lines()) else
                                                  "no perfect-score line at 0"))
     add("-aspect", ["-aspect", "2"], ("standard",), each_axis(lambda ax, f, h, i: None if ax.get_aspect() == 2.0 else "aspect is %r" % (ax.get_aspect(),)))
